@@ -57,6 +57,11 @@ func (n *AhocorasickSlimtrie) AddSet(bitIndex int, patterns []string, typ consts
 	}
 nextPattern:
 	for _, d := range patterns {
+		if typ != consts.RoutingDomainKey_Regex {
+			// Names are matched in lower case (see MatchDomainBitmap), so are the patterns:
+			// "Example.com" means the same as "example.com".
+			d = strings.ToLower(d)
+		}
 		switch typ {
 		case consts.RoutingDomainKey_Full:
 			for _, r := range []byte(d) {
